@@ -10,6 +10,8 @@
 -/
 import RbModel.Lemmas.Gpos
 import RbModel.Lemmas.GposMark
+import RbModel.Lemmas.Kerx
+import RbModel.Lemmas.GposDevice
 import RbModel.Gen.Gpos
 
 namespace RbModel.Gpos
@@ -227,6 +229,25 @@ theorem C07_value_frame {v : ValueRecord} {d : Dir} {p q : Array Pos} {idx : Nat
   · simp only [Except.ok.injEq, Prod.mk.injEq] at h
     obtain ⟨rfl, _⟩ := h
     exact ⟨by simp, fun k hk => put_get?_ne _ _ (Ne.symm hk)⟩
+
+/-- The same with the record's device / variation tables: each delta is added to exactly its own field — placements
+    whenever the face state enables that axis' devices (`useX` / `useY`: a ppem on that axis or variation coordinates),
+    the X advance delta only in horizontal runs, the Y advance delta (subtracted) only in vertical runs; attachment
+    fields untouched.  The deltas themselves are the font's (external data). -/
+theorem C07_value_exact_device (v : ValueRecordD) (useX useY : Bool) (d : Dir) (q : Pos) :
+    let r := (valueApplyToPosD v useX useY d q).1
+    r.xo = q.xo + v.xPlacement + devDelta useX v.xPlaDevice ∧
+    r.yo = q.yo + v.yPlacement + devDelta useY v.yPlaDevice ∧
+    r.xa = (if d.isHorizontal then q.xa + v.xAdvance + devDelta useX v.xAdvDevice else q.xa) ∧
+    r.ya = (if d.isHorizontal then q.ya else q.ya - v.yAdvance - devDelta useY v.yAdvDevice) ∧
+    r.chain = q.chain ∧ r.atype = q.atype := by
+  simp [valueApplyToPosD_exact]
+
+/-- without device tables (or with the face in its default state) this is the plain record -/
+theorem C07_value_device_off (v : ValueRecordD) (d : Dir) (q : Pos) :
+    (valueApplyToPosD v false false d q).1 = (valueApplyToPos v.toValueRecord d q).1 := by
+  rw [valueApplyToPosD_exact, valueApplyToPos_exact]
+  simp [devDelta]
 
 /-! ## recursion depth (C01; D13 fixed: `nesting_level` budget) -/
 
@@ -625,5 +646,75 @@ example : (∀ (s : KSub) (b : KBuf), ((fun (_ : KSub) (b : KBuf) => b) s b).inf
         (fun b => b.infos.toList.map (·.gid)) = some [1, 2] := by
   refine ⟨fun _ _ => ⟨rfl, rfl⟩, ?_⟩
   decide +kernel
+
+/-! ## the `kerx` subtable driver (aat_layout_kerx_table.rs::apply): the same two statements -/
+
+/-- The `kerx` driver returns the glyphs in the order it received them: for every subtable list (formats 0 / 2 / 6 with
+    any kerning values, state machines that keep the order), every direction, kerning on or off.  The match arms of
+    formats 0 / 2 / 6 `continue` from between the two reverses when kerning is not requested; the theorem holds because
+    the same test sits before the first reverse (`kerxStep`). -/
+theorem C02_bracket_kerx (subs : List XSub) (requested : Bool) (mask : Nat) (d : Dir) (sm : XSub → KBuf → KBuf)
+    (b b' : KBuf) (hsm : ∀ s b, (sm s b).infos = b.infos ∧ (sm s b).len = b.len) (hlen : b.len ≤ b.infos.size)
+    (h : kerxDriver subs requested mask d sm b = .ok b') :
+    b'.infos = b.infos ∧ b'.len = b.len := by
+  unfold kerxDriver at h
+  split at h
+  · cases h
+  · rename_i st hst
+    simp only [Except.ok.injEq] at h; subst h
+    exact kerxDriver_infos requested mask d sm hsm subs false b st hlen hst
+
+/-- non-vacuity: right-to-left, kerning requested, a format-0 and a format-6 subtable around an (identity) state machine -/
+example : (∀ (s : XSub) (b : KBuf), ((fun (_ : XSub) (b : KBuf) => b) s b).infos = b.infos ∧
+    ((fun (_ : XSub) (b : KBuf) => b) s b).len = b.len) ∧
+    (kerxDriver [{ kernOf := fun l r => if l = 1 ∧ r = 2 then -10 else 0 }, { format := 1 },
+                 { format := 6, kernOf := fun _ _ => 4 }] true 1 .rtl (fun _ b => b)
+      { infos := #[{ gid := 1, mask := 1 }, { gid := 2, mask := 1 }], pos := #[{ xa := 10 }, { xa := 20 }], len := 2 }).toOption.map
+        (fun b => b.infos.toList.map (·.gid)) = some [1, 2] := by
+  refine ⟨fun _ _ => ⟨rfl, rfl⟩, ?_⟩
+  decide +kernel
+
+/-- Kerning not requested, only format 0 / 2 / 6 subtables: the whole `kerx` pass changes neither the glyph order nor
+    any advance / offset — in every direction, for any number of subtables: turning kerning off removes the kerning
+    amounts and nothing else. -/
+theorem C07_kerx_off (subs : List XSub) (mask : Nat) (d : Dir) (sm : XSub → KBuf → KBuf) (b b' : KBuf)
+    (hs : ∀ s ∈ subs, s.isSimple = true)
+    (h : kerxDriver subs false mask d sm b = .ok b') :
+    b'.infos = b.infos ∧ b'.len = b.len ∧ b'.pos.map metrics = b.pos.map metrics := by
+  unfold kerxDriver at h
+  split at h
+  · cases h
+  · rename_i st hst
+    simp only [Except.ok.injEq] at h; subst h
+    exact kerxDriver_off mask d sm subs false b st hs hst
+
+/-- non-vacuity, and the shape of the seeded failure: right-to-left, `kern` switched off, ONE format-0 subtable (an odd
+    number of simple subtables) — order and advances stay -/
+example : (kerxDriver [{ kernOf := fun l r => if l = 1 ∧ r = 2 then -10 else 0 }] false 0 .rtl (fun _ b => b)
+    { infos := #[{ gid := 1, mask := 1 }, { gid := 2, mask := 1 }], pos := #[{ xa := 10 }, { xa := 20 }], len := 2 }).toOption.map
+      (fun b => (b.infos.toList.map (·.gid), b.pos)) = some ([1, 2], #[{ xa := 10 }, { xa := 20 }]) := by
+  decide +kernel
+
+/-- With kerning requested, a format 0 / 2 / 6 `kerx` subtable that applies is exactly `machine_kern` over the
+    subtable's values between two reverses (so `C07_kern_*` — pair walk, kern1 / kern2 split, frame — carry over). -/
+theorem C07_kerx_simple_is_machine_kern (mask : Nat) (d : Dir) (sm : XSub → KBuf → KBuf) (seen : Bool) (b : KBuf) (s : XSub)
+    (hs : s.isSimple = true) (hv : s.isVariable = false) (hh : d.isHorizontal = s.horizontal) (hc : s.crossStream = false) :
+    kerxStep true mask d sm (seen, b) s =
+      (let b1 := if d.isBackward then b.reverse else b
+       match machineKern b1.infos b1.pos b1.len mask d false s.kernOf with
+       | .error e => .error e
+       | .ok (p, f) =>
+         let b2 := { b1 with pos := p, attach := b1.attach || f }
+         .ok (seen, if d.isBackward then b2.reverse else b2)) := by
+  rw [kerxStep_eq]
+  simp only [hs, hv, hh, hc, xAttach, Bool.false_eq_true, if_false, ne_eq, not_true_eq_false, Bool.not_true,
+    Bool.and_false, Bool.and_self, if_true]
+  generalize (if d.isBackward = true then b.reverse else b) = b1
+  cases machineKern b1.infos b1.pos b1.len mask d false s.kernOf with
+  | error e => rfl
+  | ok r => rfl
+
+example : ∃ s : XSub, s.isSimple = true ∧ s.isVariable = false ∧ Dir.rtl.isHorizontal = s.horizontal ∧ s.crossStream = false :=
+  ⟨{ format := 2 }, by decide, rfl, rfl, rfl⟩
 
 end RbModel.Kern
